@@ -104,6 +104,7 @@ let rcond p : bexpr option =
   else None
 let rec gen_spec d allow_on =
   let on = if allow_on && rnd 3 <> 0 then Some (match rnd 5 with 0 -> LCreated | 1 -> LCompleted | 2 -> LBeforeUpdate | 3 -> LUpdated | _ -> LStep) else None in
+  if on = None && rnd 14 = 0 then ASpec (UFail, O, true, None, []) else
   match (if d > 0 then rnd 10 else rnd 6) with
   | x when x < 4 -> ASpec (UIrq, O, true, on, [])
   | x when x < 6 -> ASpec (UMsg, O, true, on, [])
